@@ -158,7 +158,11 @@ func (ru *c15Run) readback() []string {
 		case strings.HasPrefix(ch.Target, "set:"):
 			set := ru.c.p2.set(strings.TrimPrefix(ch.Target, "set:"))
 			ru.n.s.ListDefinedSet(c15Ctx, &api.ListDefinedSetRequest{DefinedType: set.DefinedType, Name: set.Name}, func(d *api.DefinedSet) {
-				out = append(out, "ListDefinedSet: "+c15Text(d))
+				// members are a set: canonical order
+				e := proto.Clone(d).(*api.DefinedSet)
+				sort.Strings(e.List)
+				sort.Slice(e.Prefixes, func(i, j int) bool { return c15Text(e.Prefixes[i]) < c15Text(e.Prefixes[j]) })
+				out = append(out, "ListDefinedSet: "+c15Text(e))
 			})
 		default:
 			ru.n.s.ListPolicyAssignment(c15Ctx, &api.ListPolicyAssignmentRequest{Name: ch.Target, Direction: ch.Dir}, func(a *api.PolicyAssignment) {
@@ -645,7 +649,7 @@ func c15RunA(t *testing.T, c *c15Case) (res c15AResult) {
 }
 
 // c15RunFresh: a fresh server with program p in force before the first route arrives.
-func c15RunFresh(t *testing.T, c *c15Case, p *c15Prog, routes []c15Ann) (sn *c15Snap, err error) {
+func c15RunFresh(t *testing.T, c *c15Case, p *c15Prog, routes []c15Ann, rb *[]string) (sn *c15Snap, err error) {
 	ru, err := c15Setup(t, c, p)
 	defer func() {
 		ru.n.stop()
@@ -656,6 +660,9 @@ func c15RunFresh(t *testing.T, c *c15Case, p *c15Prog, routes []c15Ann) (sn *c15
 	}
 	if err = ru.announce(routes); err != nil {
 		return nil, err
+	}
+	if rb != nil {
+		*rb = ru.readback()
 	}
 	return ru.snapshot()
 }
@@ -715,9 +722,17 @@ func c15Pair(t *testing.T, rec *vlib.Rec, idx int) {
 	}
 	var b *c15Snap
 	var berr error
-	synctest.Test(t, func(t *testing.T) { b, berr = c15RunFresh(t, c, c.p2, c.final) })
+	var brb []string
+	synctest.Test(t, func(t *testing.T) { b, berr = c15RunFresh(t, c, c.p2, c.final, &brb) })
 	if berr != nil {
 		t.Fatalf("c15 harness: case %d run B: %v", idx, berr)
+	}
+	// The harness' model of what the change calls mean must agree with what the management API
+	// reports: the objects touched by the change read back the same in run A (after the change) and
+	// in run B (P2 installed from scratch). Otherwise B is not "the current policy from the start".
+	if strings.Join(a.readback, "\n") != strings.Join(brb, "\n") {
+		rec.Inconclusive(fmt.Sprintf("c15: case %d: read-back after the change (run A) differs from a fresh install of P2 (run B): A=%v B=%v", idx, a.readback, brb))
+		return
 	}
 	rec.Eval()
 	if pat := os.Getenv("VERIF_C15_DUMP"); pat != "" {
@@ -764,7 +779,7 @@ func c15Pair(t *testing.T, rec *vlib.Rec, idx int) {
 		// P1 on the final inputs, to tell whether P1 and P2 differ on them
 		var cs *c15Snap
 		var cerr error
-		synctest.Test(t, func(t *testing.T) { cs, cerr = c15RunFresh(t, c, c.p1, c.final) })
+		synctest.Test(t, func(t *testing.T) { cs, cerr = c15RunFresh(t, c, c.p1, c.final, nil) })
 		if cerr != nil {
 			t.Fatalf("c15 harness: case %d run C: %v", idx, cerr)
 		}
